@@ -505,6 +505,86 @@ func (c *Ctx) checkGuard(rule string, g guardSpec) {
 		c.Check(len(bad) == 0, rule, g.typ+"."+h+" (callers must hold "+g.mutex+")", p.FuncPos(fn),
 			"all "+itoa(len(refs))+" uses hold "+g.typ+"."+g.mutex, "called without the lock from: "+join(bad))
 	}
+	// every acquisition is released: no path from a Lock/RLock of this mutex to a return of the same function misses
+	// the matching unlock (explicit, deferred, or in a deferred function literal). A critical section that is left
+	// with the lock held blocks every later user of the guarded state.
+	{
+		nAcq := 0
+		var leaks []string
+		releases := func(in ssa.Instruction) bool {
+			switch x := in.(type) {
+			case *ssa.Call:
+				id, _, acq, ok := lockEffect(&x.Call)
+				return ok && !acq && id == lockID
+			case *ssa.Defer:
+				if id, _, acq, ok := lockEffect(&x.Call); ok && !acq && id == lockID {
+					return true
+				}
+				if mc, ok := x.Call.Value.(*ssa.MakeClosure); ok {
+					if cl, ok := mc.Fn.(*ssa.Function); ok {
+						rel := false
+						eachInstr(cl, func(y ssa.Instruction) {
+							if c2, ok := y.(*ssa.Call); ok {
+								if id, _, acq, ok := lockEffect(&c2.Call); ok && !acq && strings.HasSuffix(id, "."+g.mutex) {
+									rel = true
+								}
+							}
+						})
+						return rel
+					}
+				}
+			}
+			return false
+		}
+		for _, fn := range p.ModFuncs {
+			if funcPkgPath(fn) != pkgPath || fn.Blocks == nil || strings.HasSuffix(p.FuncPos(fn), "_test.go") {
+				continue
+			}
+			eachInstr(fn, func(in ssa.Instruction) {
+				call, ok := in.(*ssa.Call)
+				if !ok {
+					return
+				}
+				id, _, acq, ok := lockEffect(&call.Call)
+				if !ok || !acq || id != lockID {
+					return
+				}
+				nAcq++
+				// acquired while this very function already holds it on every path here: sync mutexes are not re-entrant
+				if lf, ok := locks[fn]; ok && lf[in][lockID] != lockNone {
+					leaks = append(leaks, shortName(fn)+" ("+p.InstrPos(in)+": acquired while already held, which blocks forever)")
+				}
+				// a deferred release registered before the acquisition covers it as well
+				covered := false
+				eachInstr(fn, func(y ssa.Instruction) {
+					if d, ok := y.(*ssa.Defer); ok && releases(d) && precedes(d, in) {
+						covered = true
+					}
+				})
+				if covered {
+					return
+				}
+				if w := reachAvoidFromPlain(in.Block(), indexIn(in)+1, isReturn, releases, map[*ssa.BasicBlock]bool{}); w != nil {
+					leaks = append(leaks, shortName(fn)+" ("+p.InstrPos(in)+" to the return at "+p.InstrPos(w)+")")
+				}
+			})
+		}
+		if nAcq > 0 {
+			c.Check(len(leaks) == 0, rule, g.typ+"."+g.mutex+": every acquisition is released", p.Pos(mu.Pos()),
+				"all "+itoa(nAcq)+" Lock/RLock calls are followed on every path to a return by the matching unlock (explicit or deferred)",
+				"a return is reachable with the lock still held: "+join(leaks))
+		}
+	}
+}
+
+// indexIn: the position of in within its block.
+func indexIn(in ssa.Instruction) int {
+	for i, x := range in.Block().Instrs {
+		if x == in {
+			return i
+		}
+	}
+	return -1
 }
 
 func fieldIndex(n *types.Named, name string) int {
